@@ -230,8 +230,15 @@ def check_case(case):
     # (with "sigrev" the function's own signature lists the arguments in the
     # opposite order to the one the Runner is told)
     sigrev = bool(case.get("sigrev"))
+    # (with "kwonly" the last case argument - and everything after it - is a
+    # keyword-only parameter, and the argument names are inferred)
+    kwonly = cs is not None and len(cnames) >= 2 and not sigrev and \
+        case["entry"] in ("to_ds", "to_df", "runner", "runner_df") and \
+        not case.get("dictcases") and not case.get("prev_override") and \
+        core.pick([case["spec"], case["desc"], case["entry"], "kwo"], 3) == 0
     f = xfn.make_fn((names[::-1] if sigrev else names) + extra, kind=kind,
-                    name="f03", defaults={e: None for e in extra})
+                    name="f03", defaults={e: None for e in extra},
+                    kwonly=(cnames[-1],) if kwonly else ())
     vn, vd = d["vn"][case["vn"]], d["vd"][case["vd"]]
     vc = d.get("vc") if d["vn"][0] is not None else None
     entry, strat = case["entry"], case["strat"]
@@ -256,6 +263,15 @@ def check_case(case):
         resources=res or None, attrs=attrs or None))
     to_df = entry in ("to_df", "runner_df")
     last = None
+    # the Runner's output names re-assigned (in the other order) after it was
+    # built: the function's first output then carries the new first name
+    renamed = entry in ("runner", "runner_df") and case["desc"] in (
+        "two", "same") and core.pick([case["spec"], case["desc"], entry,
+                                      case["vn"], "ren"], 2) == 0
+    dvars = dict(d["vars"])
+    if renamed:
+        (n0, v0), (n1, v1) = list(d["vars"].items())
+        dvars = {n1: v0, n0: v1}
 
     def subgrid():
         # the sub-grid next to a case list, for the Runner methods: a mapping
@@ -307,8 +323,8 @@ def check_case(case):
                         **desc_kw, **kw)
                 else:
                     out = xyz.case_runner_to_ds(
-                        f, list(cnames), cs_arg, combos=combos, to_df=to_df,
-                        **desc_kw, **kw)
+                        f, None if kwonly else list(cnames), cs_arg,
+                        combos=combos, to_df=to_df, **desc_kw, **kw)
             else:
                 fkw = {"fn_args": list(names)} if sigrev else {}
                 if entry.startswith("label"):
@@ -316,6 +332,8 @@ def check_case(case):
                                     **fkw, **desc_kw)(f)
                 else:
                     far = xyz.Runner(f, **fkw, **desc_kw)
+                    if renamed:
+                        far.var_names = list(vn)[::-1]
                 runner = far.runner if entry == "label-harvester" else far
                 if case.get("prev_override"):
                     with xfn.CallLog():
@@ -346,7 +364,7 @@ def check_case(case):
                         out = runner.run_combos(combos, **kw)
                     else:
                         out = runner.run_cases(cs_arg, fn_args=None if (
-                            sigrev or case.get("prev_override"))
+                            sigrev or kwonly or case.get("prev_override"))
                                                else list(cnames),
                                                combos=subgrid(), **kw)
                     last = runner._last_ds if not to_df else None
@@ -381,7 +399,7 @@ def check_case(case):
             s = {a: r.get(a) for a in names}
             seen.append(xfn.enc(s))
             v = value(s)
-            for var, (dims, get) in d["vars"].items():
+            for var, (dims, get) in dvars.items():
                 if r.get(var) != get(v):
                     vio.append((key("df-pairing"),
                                 "row with arguments %r holds %s=%r (strat %s)"
@@ -426,7 +444,7 @@ def check_case(case):
             vio.append((key("coords"), "coordinate %r is %r, swept %r (%s)"
                         % (a, got, coords[a], "given order" if cs is None
                            or a not in coords else "sorted union")))
-    for var, (idims, get) in d["vars"].items():
+    for var, (idims, get) in dvars.items():
         if var not in ds.data_vars:
             vio.append((key("vars"), "variable %r missing (%r)"
                         % (var, list(ds.data_vars))))
